@@ -42,6 +42,15 @@ Theorem C09_critical_failure_reported : forall hooks orc e b s s' t r d i,
 Proof. exact critical_failure_reported. Qed.
 Print Assumptions C09_critical_failure_reported.
 
+(* ... read the other way round: a transition that returned success - or just the error of the
+   task transition - took the result of no failing critical call, at any moment, whatever else
+   failed. *)
+Theorem C09_success_means_no_critical_failure : forall hooks orc e b s s' t r d i,
+  transition hooks orc e b s = (s', t, r) -> dst_of e (e_st s) = Some d ->
+  r = ROk \/ r = RBody -> In i (collects t) -> critfail i = false.
+Proof. exact success_no_critical_failure. Qed.
+Print Assumptions C09_success_means_no_critical_failure.
+
 (* In particular a critical failure at enter_<state> is in the returned error whether or not
    after_<event> fails too (former finding C09-c, repaired: after_event joins its errors with the
    one enter_state left). *)
